@@ -917,7 +917,7 @@ Proof.
   split.
   - apply table_ordered. exact generated_table_cordered.
   - intros b m k n. destruct generated_ticker_body_ok as [Ho Hw].
-    induction n as [|n [IH1 IH2]]; simpl.
+    induction n as [|n [IH1 IH2]]; cbn [repeat_list].
     + split; reflexivity.
     + split.
       * apply Ordered_app; [apply cordered_inst; exact Ho|exact IH1].
